@@ -19,8 +19,21 @@ inductive Obs where
 /-- encode → decode gives an equal value -/
 def specOK (o : Obs) : Bool := o == Obs.same
 
-/-- the stated exception: for a PARITY share the share forms may (and do) come back different -/
-def specShareOK (isParity : Bool) (o : Obs) : Bool := if isParity then true else specOK o
+/-- the forms the property names -/
+inductive Form where
+  | protobuf
+  | json
+  deriving DecidableEq, Repr
+
+/-- the stated exception: "parity shares excepted from the JSON share form, which carries no parity flag" —
+    for a PARITY share the JSON form may (and does) come back different; the protobuf form is NOT excepted -/
+def specShareOK (isParity : Bool) (f : Form) (o : Obs) : Bool :=
+  if isParity && f == Form.json then true else specOK o
+
+/-- which forms each kind of value has (block ranges, namespaces and bare merkle proofs have no protobuf message
+    of their own in lumina; every other type named by the property has both) -/
+def formsOf (kind : String) : List Form :=
+  if kind == "ranges" || kind == "ns" || kind == "merkle" then [Form.json] else [Form.protobuf, Form.json]
 
 def parseObs (w : String) : Option Obs :=
   if w == "same" then some .same
